@@ -118,7 +118,7 @@ Proof.
     rewrite <- Hinp in Hit. cbn [length] in Hit. rewrite <- En in Hit. exact Hit. }
   (* ~CMsgPackReadObjectScope: nothing left to skip *)
   assert (H4 : forall p, dtor_read_object_scope (st_at inp n n p) = Ok (st_at inp n n p)).
-  { intro p. unfold dtor_read_object_scope, reset_key, st_at. cbn [mp_keyset mp_size mp_idx].
+  { intro p. unfold dtor_read_object_scope, dtor_skip_unread, reset_key, st_at. cbn [mp_keyset mp_size mp_idx].
     rewrite Nat.sub_diag. reflexivity. }
   exists (st_at inp n n (1 + length (flat_map enc_pair pairs))).
   split; [|split; reflexivity].
